@@ -44,7 +44,18 @@ func scenarioC18(c *hlib.RunCtx) *hlib.Violation {
 	ctx := context.Background()
 	root := filepath.Join(c.Dir, "store")
 	bname := []string{"uploaded", "dev-telemetry-merged", "charts"}[t.Draw(3)]
-	bh, err := NewFSBucket(ctx, root, bname)
+	// the storage directory as a configuration may spell it: clean, or with a
+	// trailing slash, a doubled slash, a "./" inside
+	rootArg := root
+	switch t.Biased(4, 2, 3) {
+	case 1:
+		rootArg = root + "/"
+	case 2:
+		rootArg = filepath.Dir(root) + "//" + filepath.Base(root)
+	case 3:
+		rootArg = filepath.Dir(root) + "/./" + filepath.Base(root)
+	}
+	bh, err := NewFSBucket(ctx, rootArg, bname)
 	if err != nil {
 		panic(err)
 	}
@@ -113,7 +124,7 @@ func scenarioC18(c *hlib.RunCtx) *hlib.Violation {
 	for i := 0; i < nops && viol == nil; i++ {
 		if t.Bool(1, 8) {
 			// the service restarts: a new handle over the same directory
-			nb, err := NewFSBucket(ctx, root, bname)
+			nb, err := NewFSBucket(ctx, rootArg, bname)
 			if err != nil {
 				fail("reopen-failed", "a second NewFSBucket over an existing bucket directory: %v", err)
 				break
